@@ -120,6 +120,70 @@ pub fn check_doc(case: &DocCase, doc: &ADoc, st: &mut Stats) -> Result<(), Failu
     Ok(())
 }
 
+/// C01 second sentence on an ARBITRARY byte string: whenever load_buffer accepts the input (strict, or lenient with or
+/// without warnings), serializing the file and loading that text again yields an identical model, and serializing once
+/// more yields byte-identical text. (What the model must contain is only known for constructed documents: check_doc.)
+pub fn oracle_c01_bytes(bytes: &[u8], st: &mut Stats) -> Result<(), Failure> {
+    st.eval();
+    let fail = |sig: &str, msg: String| Failure::new(sig, format!("{msg}\n--- input ({} bytes) ---\n{}", bytes.len(), String::from_utf8_lossy(&bytes[..bytes.len().min(3000)])), json!({"kind": "bytes", "input": bytes_json(bytes)}));
+    for strict in [true, false] {
+        let mode = if strict { "strict" } else { "lenient" };
+        // panics are C02's business
+        let Ok(r) = no_panic(|| load(bytes, strict)) else { continue };
+        let Ok((m1, f1, w1)) = r else {
+            st.class("bytes:rejected");
+            continue;
+        };
+        st.class(if w1.is_empty() { "bytes:accepted-clean" } else { "bytes:accepted-with-warnings" });
+        st.nontrivial(fnv(bytes) ^ strict as u64);
+        let x1 = extract_model(&m1);
+        // recorded finding KF-C01-2: a comment or processing instruction inside character data splits the text into
+        // several content items of a character-data element (only the first is read and written)
+        // (in mixed content: two adjacent text items, which no XML text can express)
+        let split_text = m1.elements_dfs().any(|(_, e)| {
+            (e.content_type() == ContentType::CharacterData && e.content_item_count() > 1) || {
+                let c: Vec<bool> = e.content().map(|c| matches!(c, ElementContent::CharacterData(_))).collect();
+                c.windows(2).any(|w| w[0] && w[1])
+            }
+        });
+        let fail = |sig: &str, msg: String| if split_text { fail("comment-inside-text-drops-rest", msg) } else { fail(sig, msg) };
+        if split_text {
+            st.class("bytes:text-split-by-comment-or-pi(KF-C01-2)");
+        }
+        let t1 = match no_panic(|| f1.serialize()) {
+            Ok(Ok(t)) => t,
+            Ok(Err(e)) => return Err(fail("bytes-identity:serialize-error", format!("{mode}: serialize of an accepted input failed: {e}"))),
+            Err(p) => return Err(fail(&format!("bytes-identity:serialize-panic:{}", panic_site(&p)), format!("{mode}: serialize panicked: {p}"))),
+        };
+        // a clean load must reload cleanly in the same mode; a load with warnings has kept something invalid or dropped
+        // something, so its text is reloaded leniently and may warn again - the model must still be the same
+        let (m2, f2, w2) = match no_panic(|| load(t1.as_bytes(), strict && w1.is_empty())) {
+            Ok(Ok(x)) => x,
+            Ok(Err(e)) => return Err(fail("bytes-identity:reload-rejected", format!("{mode}: the serialized text of an accepted input is rejected on reload: {e}\n--- serialized ---\n{}", &t1[..t1.len().min(2000)]))),
+            Err(p) => return Err(fail(&format!("bytes-identity:reload-panic:{}", panic_site(&p)), format!("{mode}: reload panicked: {p}"))),
+        };
+        if w1.is_empty() && !w2.is_empty() {
+            return Err(fail("bytes-identity:reload-warns", format!("{mode}: reload of the serialized text warns: {}\n--- serialized ---\n{}", w2[0], &t1[..t1.len().min(2000)])));
+        }
+        let x2 = extract_model(&m2);
+        if let Some(d) = x1.diff(&x2, "") {
+            return Err(fail(&format!("bytes-identity:{}", diff_kind(&d)), format!("{mode}: load(serialize(m)) differs from m: {d}\n--- serialized ---\n{}", &t1[..t1.len().min(2000)])));
+        }
+        if f2.version() != f1.version() || f2.xml_standalone() != f1.xml_standalone() {
+            return Err(fail("bytes-identity:file-attrs", format!("{mode}: version/standalone differ after reload")));
+        }
+        match no_panic(|| f2.serialize()) {
+            Ok(Ok(t2)) => {
+                if t2 != t1 {
+                    return Err(fail("bytes-identity:bytes", format!("{mode}: serializing the reloaded model is not byte-identical\n--- first ---\n{}\n--- second ---\n{}", &t1[..t1.len().min(1500)], &t2[..t2.len().min(1500)])));
+                }
+            }
+            _ => return Err(fail("bytes-identity:serialize-error", format!("{mode}: second serialize failed"))),
+        }
+    }
+    Ok(())
+}
+
 fn diff_kind(d: &str) -> &'static str {
     if d.contains(": value ") {
         "value"
@@ -207,6 +271,20 @@ pub fn run(ctx: &Ctx) {
         run_case(ctx, &case, st)
     });
 
+    // (iii) identity half of C01 on inputs that are NOT generated as valid: mutated documents (most stay acceptable,
+    // at least leniently), header variants, truncations
+    let cases = ctx.tier.pick(300_000u64, 3_000_000u64);
+    run_prop(ctx, "bytes-identity", cases, crate::inputs::mutated_doc_strategy(), |v, st| {
+        let Some(bytes) = crate::inputs::build_mutated(&reach, v) else {
+            return Outcome::Discard;
+        };
+        st.class("mutated-doc");
+        match oracle_c01_bytes(&bytes, st) {
+            Ok(()) => Outcome::Pass,
+            Err(f) => Outcome::Fail(f),
+        }
+    });
+
     regressions(ctx);
 }
 
@@ -248,6 +326,12 @@ pub fn replay(ctx: &Ctx, case: &Value) {
                 ctx.report(f);
             }
         }
+    } else if case["kind"] == "bytes" {
+        let b = bytes_from_json(&case["input"]);
+        if let Err(f) = oracle_c01_bytes(&b, &mut st) {
+            ctx.report(f);
+        }
+        regressions(ctx);
     } else {
         regressions(ctx);
     }
